@@ -54,7 +54,9 @@ func (mc multiCore) With(fields []Field) Core {
 }
 
 func (mc multiCore) Level() Level {
-	minLvl := _maxLevel // mc is never empty
+	// InvalidLevel sorts above every level, so it is what remains when no
+	// branch enables anything.
+	minLvl := InvalidLevel // mc is never empty
 	for i := range mc {
 		if lvl := LevelOf(mc[i]); lvl < minLvl {
 			minLvl = lvl
